@@ -1,8 +1,13 @@
 //! C32-C35: transaction identifiers, signature authorisation, validation limits and subintent
 //! structure. Oracles are written from the property texts (reference hash composition, harness
 //! knowledge of the true key set, an independent limit predicate, an independent graph check).
+mod c32;
+mod c33;
+mod c34;
 mod c35;
 mod gen;
+mod refhash;
+mod sborwalk;
 
 fn probe() -> i32 {
     use radix_transactions::prelude::*;
@@ -30,6 +35,9 @@ fn main() {
     let args = rv_common::parse_args();
     let code = match args.prop.as_str() {
         "probe" => probe(),
+        "C32" => c32::run(&args),
+        "C33" => c33::run(&args),
+        "C34" => c34::run(&args),
         "C35" => c35::run(&args),
         other => {
             eprintln!("rv-tx: no check named {other}");
